@@ -917,9 +917,12 @@ class Twin:
                 if wl.__enter__() is not wl:
                     raise RuntimeError("__enter__ did not return the worklist")
             elif name == "str":
-                strcp = lexer.cps(str(wl))
-                if repr(wl) != str(wl):
-                    strcp = [-1]
+                import re as _re
+
+                text = str(wl)
+                strcp = [lexer.cps(x) for x in (_re.split("\r\n|\n|\r", text) if text else [])]
+                if repr(wl) != text:
+                    strcp = [[-1]]
             elif name == "save":
                 wl.save(path if a["pathkind"] == "str" else pathlib.Path(path))
             else:
@@ -939,7 +942,7 @@ class Twin:
         post, cs = self.project(None)
         recs, prefix_ok, wlen = self.new_records(True)
         return {"op": name, "a": a, "out": outcome_class(exc), "post": post, "recs": recs, "wprefix": prefix_ok,
-                "wlen": wlen, "file": fileinfo, "strcp": strcp, "cs": cs, "tiesbig": False, "hasmodel": False}
+                "wlen": wlen, "file": fileinfo, "strlines": strcp, "cs": cs, "tiesbig": False, "hasmodel": False}
 
 
 def _flat(a):
